@@ -10,11 +10,12 @@ the function that contains it.
 """
 from pyvc.core import *  # noqa: F403
 from pyvc.spec import Contract, Clause, P, H, CANARY
+from .base_c import NOFAIL, FAILED
 
 GW = TObj("Gateway")
 MSG = TObj("Message")
 BUFT = TObj("MessageBuffer")
-GHOST_LOG = ["ghost.wlen", "ghost.wat", "ghost.wdom"]
+GHOST_LOG = ["ghost.wlen", "ghost.wat", "ghost.wdom", "ghost.wfail"]
 
 VQ_LINE = "'0;255;3;0;2;\\n'"
 
@@ -151,6 +152,7 @@ def to_contract(qualname, hs, vidx, command=None, extra_requires=(), check_wf=Tr
             cl.append(H("te/transport-error-state", " or ".join(state)))
             cl.append(P(("C10" if has_req else "C06") + "/transport-error-log", " or ".join(logs)))
             cl.append(H("te/transport-error-cases", " or ".join(full)))
+            cl.append(H("te/failure-counted", FAILED))
         else:
             for o in outs:
                 g = f"old({o.guard})"
@@ -161,6 +163,9 @@ def to_contract(qualname, hs, vidx, command=None, extra_requires=(), check_wf=Tr
                     cl.append(Clause("C07/buffer-untouched-by-non-wake-messages", f"implies({g}, same_dict(SM))", "property", guard=g))
                 cl.append(Clause(log_id(o) if o.log is not None else "C07/log-grows", f"implies({g}, {log_text(o)})", "property", guard=g))
             cl.append(H(f"cases/{kind}", " or ".join(f"old({o.guard})" for o in outs)))
+            # whatever else happens, a handler that does not raise a transport error has not seen a write fail (C08: "the failure
+            # is reported to the caller of listen" - a swallowed TransportError returns or raises something else with wfail advanced)
+            cl.append(P("C08/a-failed-write-is-reported", NOFAIL))
         if kind == "normal":
             cl.insert(0, P("C04/yields-the-message", "result is message"))
             ensures = cl
